@@ -49,6 +49,7 @@ def showRead (rs : List (List (Option Nat))) : String :=
   ";".intercalate (rs.map fun c => " ".intercalate (c.map fun | some x => toString x | none => "n"))
 
 /-- `m2g.write <G(..)> <map> … <map>` → `ok <cols> | <read-back values per column> | <1 iff some row fails okF>` (value-writer branches, one Write of the batch);
+    `m2g.owrite <G(..)> <J(map)|N> …` the map as a record member on an OPTIONAL group node;
     `m2g.iface <G(..)> <struct> … <struct>` the same for a struct of `any` fields (`S(v1,…)` in schema order);
     `m2g.str <members> <map> … <map>` → `ok <cols>` (string branch) -/
 def handle (toks : List String) : Option String :=
@@ -56,6 +57,10 @@ def handle (toks : List String) : Option String :=
   | "m2g.write" :: gs :: vals => some <|
     match parseG gs.toList, parseBatch vals with
     | some (.group fs, []), some batch => s!"ok {C03.showCols (m2gWrite fs batch)} | {showRead (readCols (maxDefsF fs 0) (m2gWrite fs batch))} | {if batch.all fun row => okF fs true (some (PqModel.TypedPath.elemsS row)) then 0 else 1}"
+    | _, _ => "bad-op"
+  | "m2g.owrite" :: gs :: vals => some <|
+    match parseG gs.toList, parseBatch vals with
+    | some (.group fs, []), some batch => s!"ok {C03.showCols (m2gOptWrite fs batch)} | {showRead (readCols (maxDefsF fs 1) (m2gOptWrite fs batch))}"
     | _, _ => "bad-op"
   | "m2g.iface" :: gs :: vals => some <|
     match parseG gs.toList, parseBatch vals with
